@@ -1294,7 +1294,13 @@ func (fr *frame) assertTarget(a *Clause) *ssa.Call {
 		byLine[ln] = append(byLine[ln], c)
 	}
 	if a.Occ < 1 || a.Occ > len(lines) {
-		e.contractError(a, fmt.Errorf("site %q#%d not found in %s (%d candidates)", a.Site, a.Occ, fr.fn.Name(), len(lines)))
+		// the statement the assertion was attached to is gone: report the assertion as failed
+		key := "missing-site:" + a.Site + a.Text
+		if !fr.ft.assumed[key] && a.Kind == "assert" && fr.depth == 0 {
+			fr.ft.assumed[key] = true
+			o := fr.oblig("assert", a.Props, fr.fn.Pos(), a.name(), "true", "false")
+			o.SrcLine = fmt.Sprintf("statement %q the assertion is attached to no longer exists in %s", a.Site, fr.fn.Name())
+		}
 		return nil
 	}
 	l := byLine[lines[a.Occ-1]]
